@@ -48,7 +48,9 @@ func (st *CompatibleSet[T]) add(ht Hint, v T) error {
 		return errors.WithMessage(err, "add to CompatibleSet")
 	}
 
-	st.cacheSet(ht.String(), [2]interface{}{ht, v})
+	// NOTE lower version than the already added under same major is not set;
+	// what Find() will find should be cached.
+	st.cacheSet(ht.String(), [2]interface{}{ht, st.set[ht.Type()][ht.Version().Major()]})
 
 	switch eht, found := st.typeheadhints[ht.Type()]; {
 	case !found:
